@@ -3,6 +3,7 @@ package l2transport
 import (
 	"context"
 	"fmt"
+	"sync"
 
 	datatransfer "github.com/filecoin-project/go-data-transfer/v2"
 
@@ -105,6 +106,122 @@ func c16ControlDuringRestart(x *mc.Cell) {
 	}
 }
 
+// c16ReceiveErrorVsCleanup: the graphsync receiver-network-error listener reports an error for every tracked
+// request of a peer. Two (or three) channels with peer B are tracked; the events handler is held inside the first
+// OnReceiveDataError, and meanwhile another goroutine cleans up a channel of that peer that has not been reported
+// yet. Oracle (C16: a callback for a channel after its cleanup produces no channel event): no events-handler call
+// for the cleaned-up channel is recorded after its CleanupChannel returned. (A cleanup that waits for the
+// listener to finish - the code's read-locked iteration - satisfies this: all reports precede the return.)
+func c16ReceiveErrorVsCleanup(x *mc.Cell) {
+	for _, nch := range []int{2, 3} {
+		nch := nch
+		rep := map[string]any{"channels-with-peer": nch, "cell": "receive-error-vs-cleanup"}
+		x.Executions++
+		pv, stack := mc.Bubble(x.T, func() {
+			w := NewWorld()
+			defer w.Close()
+			var chids []datatransfer.ChannelID
+			for i := 0; i < nch; i++ {
+				chid := datatransfer.ChannelID{Initiator: doubles.PeerB, Responder: doubles.PeerA, ID: datatransfer.TransferID(20 + i)}
+				chids = append(chids, chid)
+				w.GS.IncomingRequestHook(doubles.PeerB, reqData(50+i, extOf(reqMsg(chid.ID, false, true))), &doubles.Actions{})
+			}
+			mc.Wait()
+			gate := make(chan struct{})
+			released := false
+			release := func() {
+				if !released {
+					released = true
+					close(gate)
+				}
+			}
+			defer release()
+			first := make(chan datatransfer.ChannelID, 1)
+			w.H.Answer = func(c doubles.HCall) (datatransfer.Message, error) {
+				if c.Method == "OnReceiveDataError" {
+					select {
+					case first <- c.Chid:
+						<-gate
+					default:
+					}
+				}
+				return nil, nil
+			}
+			if w.GS.ReceiverNetworkError == nil {
+				x.Note("no_receiver_network_error_listener", 1)
+				return
+			}
+			lst := mc.Go(func() { w.GS.ReceiverNetworkError(doubles.PeerB, fmt.Errorf("connection reset")) })
+			mc.Wait()
+			var held datatransfer.ChannelID
+			select {
+			case held = <-first:
+			default:
+				x.Violate("C16", "receive-error-vs-cleanup;no-report-for-tracked-channels", "the receiver network error was reported for no tracked channel of the peer", rep)
+				return
+			}
+			// clean up every channel the listener has not reported yet
+			after := map[datatransfer.ChannelID]int{}
+			var cl []*mc.CallResult
+			var amu sync.Mutex
+			for _, chid := range chids {
+				if chid == held {
+					continue
+				}
+				chid := chid
+				c := mc.Go(func() {
+					w.T.CleanupChannel(chid)
+					n := w.H.NumCalls()
+					amu.Lock()
+					after[chid] = n
+					amu.Unlock()
+				})
+				cl = append(cl, c)
+			}
+			mc.Wait()
+			early := 0
+			for _, c := range cl {
+				if c.Returned() {
+					early++
+				}
+			}
+			release()
+			mc.Wait()
+			ret := lst.Returned()
+			for _, c := range cl {
+				ret = ret && c.Returned()
+			}
+			if !ret {
+				n := mc.Unblock()
+				x.Violate("C20", "receive-error-vs-cleanup;did-not-return", fmt.Sprintf("listener returned=%v (%d parked)", lst.Returned(), n), rep)
+				x.Fatal = true
+				return
+			}
+			x.Premise++
+			late := 0
+			amu.Lock()
+			marks := map[datatransfer.ChannelID]int{}
+			for k, v := range after {
+				marks[k] = v
+			}
+			amu.Unlock()
+			for chid, m := range marks {
+				for _, c := range w.H.CallsFrom(m) {
+					if c.Chid == chid {
+						late++
+						x.Violate("C16", "receive-error-vs-cleanup;event-after-cleanup-returned;method="+c.Method, fmt.Sprintf("%d channels of peer B tracked; the handler was busy with OnReceiveDataError for one of them when CleanupChannel of another ran (returned before the handler was released: %d of %d); afterwards the handler got %s for the cleaned-up channel", nch, early, len(cl), c), rep)
+					}
+				}
+			}
+			x.Outcome(fmt.Sprintf("n=%d|cleanups-returned-while-held=%d|late=%d", nch, early, late))
+		})
+		if pv != nil {
+			x.Violate("C16", "panic;receive-error-vs-cleanup", fmt.Sprintf("%v\n%s", pv, stack), rep)
+		}
+	}
+}
+
 func init() {
 	mc.Register("C16", "control-calls-during-a-restart-request", "both", c16ControlDuringRestart)
+	mc.Register("C16", "receive-error-listener-vs-cleanup", "both", c16ReceiveErrorVsCleanup)
 }
